@@ -102,10 +102,16 @@ def module_path(mod):
 
 def find_def(tree, qual):
     node = tree
+    want_setter = qual.endswith("#setter")
+    qual = qual.split("#")[0]
     for part in qual.split("."):
         found = None
         for ch in node.body:
             if isinstance(ch, (ast.FunctionDef, ast.ClassDef, ast.AsyncFunctionDef)) and ch.name == part:
+                is_setter = isinstance(ch, ast.FunctionDef) and any(
+                    isinstance(d, ast.Attribute) and d.attr in ("setter", "deleter") for d in ch.decorator_list)
+                if isinstance(ch, ast.FunctionDef) and is_setter != want_setter:
+                    continue
                 found = ch
         if found is None:
             raise KeyError(f"definition {qual!r} not found")
@@ -120,7 +126,7 @@ def _sym_const(v):
     """Map float module constants that are rational multiples of pi to the symbolic pi."""
     if not isinstance(v, float) or v == 0 or math.isinf(v) or math.isnan(v):
         return None
-    pi = sym.SNum(z3.Real("pi"))
+    pi = sym.SNum(z3.Real("pi"), 1)
     for q in (Fraction(1), Fraction(2), Fraction(1, 2), Fraction(1, 180), Fraction(1, 4), Fraction(3, 2),
               Fraction(1, 648000), Fraction(1, 12), Fraction(1, 43200)):
         if math.isclose(v, math.pi * float(q), rel_tol=4e-16, abs_tol=0):
@@ -146,6 +152,20 @@ class LazyFn:
         if obj is None:
             return self
         return types.MethodType(self, obj)
+
+
+class RepoModule:
+    """`from . import constants as const`-style access to another resonaate module."""
+
+    def __init__(self, real, loader):
+        self.__dict__["_real"], self.__dict__["_loader"] = real, loader
+
+    def __getattr__(self, name):
+        real, loader = self.__dict__["_real"], self.__dict__["_loader"]
+        g = loader.globals_for(real.__name__)
+        if name in g:
+            return g[name]
+        return getattr(real, name)
 
 
 class Loader:
@@ -207,6 +227,8 @@ class Loader:
                 g[name] = s
             elif isinstance(v, types.ModuleType) and v.__name__.split(".")[0] in ("numpy", "scipy", "math"):
                 g[name] = shims.ShimModule(v)
+            elif isinstance(v, types.ModuleType) and v.__name__.startswith("resonaate"):
+                g[name] = RepoModule(v, self)
             elif spec is not None and "<locals>" not in spec:
                 g[name] = LazyFn(spec, self)
             elif isinstance(v, float):
@@ -244,8 +266,8 @@ class Loader:
             cnode = find_def(tree, klass.__qualname__)
             for ch in cnode.body:
                 if isinstance(ch, ast.FunctionDef):
-                    fspec = f"{klass.__module__}:{klass.__qualname__}.{ch.name}"
                     decos = [ast.unparse(d) for d in ch.decorator_list]
+                    fspec = f"{klass.__module__}:{klass.__qualname__}.{ch.name}" + ("#setter" if any(d.endswith(".setter") for d in decos) else "")
                     if fspec in self.stubs:
                         f = self.stubs[fspec]
                     else:
